@@ -115,7 +115,8 @@ where
                 continue;
             }
             if *key_bytes >= *end_key_bytes {
-                break;
+                // The cache is an unordered map, later keys can still be inside the range
+                continue;
             }
             if let Some(cache) = self.cache.get(key) {
                 if let Some(value) = cache.latest() {
